@@ -201,8 +201,8 @@ theorem KeepsFiled.insertLeaf (parent : Option Nat) (cur : Leaf) (key lsn : Nat)
     KeepsFiled (insertLeaf parent cur key lsn value root) := by
   rw [insertLeaf_eq]
   exact KeepsFiled.ite (KeepsFiled.throw _) (KeepsFiled.ite (KeepsFiled.throw _)
-    (KeepsFiled.ite (KeepsFiled.unmodelledS _)
-    ((KeepsFiled.putNode _ _).bind fun _ => KeepsFiled.ite (KeepsFiled.pure _) (KeepsFiled.leafSplit _ _ _ _))))
+    (KeepsFiled.ite (KeepsFiled.unmodelledS _) (KeepsFiled.ite (KeepsFiled.unmodelledS _)
+    ((KeepsFiled.putNode _ _).bind fun _ => KeepsFiled.ite (KeepsFiled.pure _) (KeepsFiled.leafSplit _ _ _ _)))))
 
 theorem KeepsFiled.intSplitUp (parent : Option Nat) (curOff newOff midKey lsn root1 : Nat) :
     KeepsFiled (intSplitUp parent curOff newOff midKey lsn root1) := by
